@@ -406,7 +406,10 @@ struct C06 : World {
   // left the multiplexer unusable; a raw line followed by a one byte stuffing gap: assertion, or a corrupt
   // data unit when the raw unit had the maximum length; an undefined Teletext line after a raw line got the
   // wrong field_parity; the TS demultiplexer dropped a 184 byte PES packet met while synchronising).  They
-  // are repaired in /repo; the minimised replays are in regress/C06/ and nothing is avoided any more.
+  // are repaired in /repo; the minimised replays are in regress/C06/ and none of them is avoided any more.
+  // One shape is avoided (guard in do_frame(), counter guard_lead0_same_field, lifted by the knob lead0_strict):
+  // a frame led by undefined lines that the demultiplexer adds to the previous frame and then drops together
+  // with it - a suspected defect of dvb_demux.c, /verif/out/C06/lead0-same-field.json and fix-1.diff.
 
   Plan generate(uint64_t seed, const std::string& tier) override {
     Plan p; p.world = name(); p.seed = seed;
@@ -445,6 +448,17 @@ struct C06 : World {
     bool invalid_frames = r.chance(1, 2);
     bool var_cfg = r.chance(2, 3);
     int nframes = 1 + (int)r.below(tier == "thorough" ? 24 : 10);
+    // Frame *sequences* (its own random stream, so that the frames below stay what they were): in two runs of three
+    // every valid frame is given a way to begin (as generated / with undefined Teletext lines / with a low line of the
+    // first field / in the second field) and a way to end (as generated / in the first field / in the second field /
+    // with undefined lines behind a line of the first or the second field / with a raw line), all combinations, so
+    // that every ordered pair (how the previous frame ended, how the next one begins) comes up: what the
+    // demultiplexer makes of a packet depends on what the previous packets left behind.
+    Rng q(seed, "frameseq");
+    bool seq_mode = q.chance(2, 3);
+    p.knobs["lead0"] = seq_mode;  // undefined lines may lead a frame; the closing frame is sent twice (see run())
+    // experiments only (`--tier lead0strict`, never used by bin/check): without the guard described in run()
+    if (tier == "lead0strict") p.knobs["lead0_strict"] = 1;
     auto cfg_op = [&](int what, int64_t a, int64_t b) { Op o; o.task = 0; o.kind = "cfg"; o.a = {what, a, b}; p.ops.push_back(o); };
     if (r.chance(3, 4)) { int k = (int)r.below(8); cfg_op(0, k, 0); }
     if (r.chance(3, 4)) {
@@ -510,7 +524,9 @@ struct C06 : World {
           ls.insert(ls.begin() + (long)pos, {0, (int)r.below(3)});
         }
       }
+      bool spoiled = false;
       if (invalid_frames && r.chance(1, 4) && !ls.empty()) {
+        spoiled = true;
         size_t k = (size_t)r.below(ls.size());
         switch (r.below(7)) {
           case 0: if (ls.size() >= 2) std::swap(ls[k], ls[(k + 1) % ls.size()]); break;              // unsorted
@@ -520,6 +536,54 @@ struct C06 : World {
           case 4: ls[k] = {(int)r.below(2) ? 17 : 336, 3 + (int)r.below(4)}; break;                     // service on a line it must not use
           case 5: ls[k].first += 313; break;
           default: ls[k].second = (int)r.below((uint64_t)NSVC); break;
+        }
+      }
+      if (seq_mode && !spoiled) {
+        enum { B_ASIS, B_ZERO, B_LOW1, B_F2 };
+        enum { E_ASIS, E_F1, E_F2, E_ZERO_F1, E_ZERO_F2, E_RAW };
+        static const int btab[] = {B_ASIS, B_ASIS, B_ZERO, B_ZERO, B_ZERO, B_LOW1, B_LOW1, B_F2, B_F2, B_F2};
+        static const int etab[] = {E_ASIS, E_ASIS, E_F1, E_F1, E_F2, E_F2, E_ZERO_F1, E_ZERO_F2, E_RAW, E_RAW};
+        int bk = btab[q.below(10)], ek = etab[q.below(10)];
+        if (ek == E_RAW && !with_raw) ek = (int)q.below(5);
+        auto zero = [&]() { return std::pair<int, int>(0, (int)q.below(3)); };
+        auto ttx = [&](int l) { return std::pair<int, int>(l, (int)q.below(3)); };
+        if (q.chance(1, 16)) {  // nothing but undefined lines: no line number at all
+          ls.clear();
+          for (int k = 1 + (int)q.below(3); k > 0; k--) ls.push_back(zero());
+        } else {
+          auto first_f2 = [&]() { size_t i = 0; while (i < ls.size() && ls[i].first < 313) i++; return i; };
+          if (bk == B_F2) ls.erase(ls.begin(), ls.begin() + (long)first_f2());
+          else if (ek == E_F1 || ek == E_ZERO_F1) ls.erase(ls.begin() + (long)first_f2(), ls.end());
+          if (ek != E_ASIS) while (!ls.empty() && (ls.back().first == 0 || ls.back().second == 7)) ls.pop_back();
+          if (ls.empty()) ls.push_back(ttx(bk == B_F2 || ek == E_F2 || ek == E_ZERO_F2 ? 320 + (int)q.below(16) : 7 + (int)q.below(16)));
+          if ((ek == E_F2 || ek == E_ZERO_F2) && ls.back().first < 313) ls.push_back(ttx(320 + (int)q.below(16)));
+          if (bk == B_LOW1 && ls[0].first > 9) ls.insert(ls.begin(), ttx(7 + (int)q.below(3)));
+          if (ek == E_ZERO_F1 || ek == E_ZERO_F2) for (int k = 1 + (int)q.below(2); k > 0; k--) ls.push_back(zero());
+          if (ek == E_RAW) {  // a raw line of the image below everything else
+            int last = 0; for (auto& l : ls) if (l.first > last) last = l.first;
+            std::vector<int> cand;
+            for (int f = 0; f < 2; f++) {
+              int st = (int)p.knobs[f ? "sp_start1" : "sp_start0"], cn = (int)p.knobs[f ? "sp_count1" : "sp_count0"];
+              for (int l = st; l < st + cn; l++) if (l > last && raw_line_ok(l)) cand.push_back(l);
+            }
+            if (!cand.empty()) ls.push_back({cand[q.below(cand.size())], 7});
+          }
+          if (bk == B_ZERO) for (int k = 1 + (int)q.below(2); k > 0; k--) ls.insert(ls.begin(), zero());
+        }
+        if (with_raw && q.chance(1, 10)) {
+          // an invalid frame in the sequence: a raw line which the raw image has but the standard does not permit
+          // (5, 6, 24.., 318, 319, 337..), in its place; the frames behind it must pass ('leaves the multiplexer usable')
+          std::vector<int> cand;
+          for (int f = 0; f < 2; f++) {
+            int st = (int)p.knobs[f ? "sp_start1" : "sp_start0"], cn = (int)p.knobs[f ? "sp_count1" : "sp_count0"];
+            for (int l = st; l < st + cn; l++) if (!raw_line_ok(l)) cand.push_back(l);
+          }
+          if (!cand.empty()) {
+            int l = cand[q.below(cand.size())];
+            size_t i = 0;
+            while (i < ls.size() && ls[i].first < l) i++;
+            if (i == ls.size() || ls[i].first != l) ls.insert(ls.begin() + (long)i, {l, 7});
+          }
         }
       }
       int mask_sel = r.chance(2, 3) ? 0 : (int)r.below((uint64_t)NMASKS);
@@ -638,23 +702,48 @@ struct C06 : World {
     std::vector<Seg> segs;
     int last_nz = 0;     // last defined line number of the last accepted frame with sliced lines
     int chain_lines = 0; // lines of the frames that the demultiplexer may join into one
+    bool lead0 = plan.knob("lead0", 0) & 1;
+    bool lead0_strict = plan.knob("lead0_strict", 0) & 1;
+    int prev_wire_field = -1;     // field (0 first, 1 second) coded in the last sliced data unit that went down the pipe
+    bool have_sliced_seg = false; // an accepted frame with sliced lines went down the pipe
+    std::string prev_end_kind;    // how the previous accepted frame ended on the wire (probe counters only)
     bool prev_rejected = false;
     int frames_fed = 0, frames_accepted = 0;
 
     auto wake_transport = [&] { if (st.transport_waiting && st.transport) { st.transport_waiting = false; sched.wake(st.transport); } };
 
     // -- one frame through the multiplexer; returns acceptance
-    auto do_frame = [&](std::vector<Line> lines, int64_t pts, int iface, int mask_sel, int buf_sel, int rawmode, bool is_flush) -> bool {
+    // flush: 0 a frame of the plan; 1 closing frame of the harness, not expected back; 2 closing frame that is expected back
+    auto do_frame = [&](std::vector<Line> lines, int64_t pts, int iface, int mask_sel, int buf_sel, int rawmode, int flush) -> bool {
+      const bool is_flush = flush == 1, closing = flush != 0;
       unsigned mask = MASKS[((mask_sel % NMASKS) + NMASKS) % NMASKS];
       rawmode = ((rawmode % 5) + 5) % 5;
       if (rawmode == 4 && bad_kind == 0) rawmode = 1;
       const unsigned char* raw_arg = (rawmode == 1 || rawmode == 3 || rawmode == 4) ? raw_img : nullptr;
       const vbi_sampling_par* sp_arg = (rawmode == 1 || rawmode == 2) ? &sp : rawmode == 4 ? &sp_bad : nullptr;
       auto included = [&](const Line& l) { return (SVC[l.svc].id & mask) != 0; };
-      // canonical form: undefined Teletext lines never lead the frame, at most four of them (see the
-      // comment at the round trip oracle), and never so many lines that a joined frame exceeds 64
+      // canonical form: at most four undefined Teletext lines, and never so many lines that a joined frame
+      // exceeds 64 (the frame buffer of the demultiplexer).  Undefined lines at the head of a frame:
+      //  - plans without the knob lead0 (older replay files): never, as it used to be;
+      //  - not when the previous sliced data unit on the wire has the field parity these undefined lines will
+      //    get and a numbered line of this frame is not above the last numbered line sent before (suspected
+      //    defect of dvb_demux.c, /verif/out/C06/lead0-same-field.json: the demultiplexer adds the undefined
+      //    units to the frame it is collecting, meets the lower line number in the middle of the packet, calls
+      //    that an error and drops both frames).  The knob lead0_strict, which
+      //    no generator sets, lifts this guard.
       {
-        bool seen_nz = false; int zeros = 0; int total = chain_lines;
+        bool lead_ok = lead0;
+        if (lead0 && !lead0_strict && prev_wire_field >= 0 && last_nz > 0) {
+          bool z = false; int zfield = 0;  // an undefined line is coded with the field of the (raw) line before it, else the first
+          for (auto& l : lines) {
+            if (!included(l)) continue;
+            if (l.cls() == C_RAW) { zfield = l.line >= 313; continue; }
+            if (l.cls() == C_TTX && l.line == 0) z = true; else break;
+          }
+          if (z && zfield == prev_wire_field) for (auto& l : lines) if (included(l) && l.cls() != C_RAW && l.line > 0 && l.line <= last_nz) { lead_ok = false; break; }
+          if (!lead_ok) ctx.count("guard_lead0_same_field");
+        }
+        bool seen_nz = lead_ok; int zeros = 0; int total = chain_lines;
         std::vector<Line> keep;
         for (auto& l : lines) {
           bool inc = included(l) && l.cls() != C_RAW;
@@ -801,9 +890,9 @@ struct C06 : World {
         ctx.count("rejected_" + std::string(v == V_REJECT ? reason : v == V_EITHER ? "unspecified" : "VALID"));
         if (!st.frame_bytes.empty()) { ctx.fail("oracle:mux-reject-output", "frame %d rejected but %zu bytes were emitted", frames_fed, st.frame_bytes.size()); return false; }
         if (v == V_ACCEPT) {
-          ctx.fail(prev_rejected || is_flush ? "oracle:mux-unusable" : "oracle:mux-rejected-valid",
+          ctx.fail(prev_rejected || closing ? "oracle:mux-unusable" : "oracle:mux-rejected-valid",
                    "frame %d (%zu lines, mask %x, %s, data_identifier %02x, max size %u%s) is valid but was rejected%s", frames_fed, n, mask, use_cor ? "cor" : "feed", cfg.di, cfg.max,
-                   is_flush ? ", closing frame of the harness" : "", prev_rejected ? "; the previous frame was rejected for its content" : "");
+                   closing ? ", closing frame of the harness" : "", prev_rejected ? "; the previous frame was rejected for its content" : "");
           return false;
         }
         prev_rejected = true;
@@ -865,13 +954,32 @@ struct C06 : World {
       // ---- what the demultiplexer has to make of it
       Seg sg; sg.pts = pts & PTS_MASK; sg.may_merge = false;
       for (auto& l : exp_lines) if (l.cls() != C_RAW) sg.lines.push_back(l);
+      if (st.to_pipe && !pp.du.empty()) {
+        // probes: which (end of the previous frame, beginning of this frame) pairs the demultiplexer met
+        auto kind = [](const PDu& u, bool begin) -> std::string {
+          if (u.id == 0xC6) return "raw";
+          if (u.offset == 0) return begin ? "undef" : u.parity ? "undef1" : "undef2";
+          if (!u.parity) return "f2";
+          return begin && u.offset <= 9 ? "f1low" : "f1";
+        };
+        if (!prev_end_kind.empty()) ctx.count("seq_" + prev_end_kind + "_then_" + kind(pp.du.front(), true));
+        prev_end_kind = kind(pp.du.back(), false);
+        for (auto& u : pp.du) if (u.id != 0xC6) prev_wire_field = u.parity ? 0 : 1;
+      }
       if (sg.lines.empty() && !is_flush) { ctx.count("accepted_without_sliced_lines"); segs.push_back(sg); }
       if (!sg.lines.empty() && !is_flush) {
-        int first = sg.lines[0].line;
-        // frames are recognisable by a non-increasing line number; if the first line is above the
-        // last line of the previous frame the two cannot be told apart: joined or separate, both accepted
-        sg.may_merge = last_nz > 0 && first > last_nz;
-        if (sg.may_merge) { ctx.count("unrecognisable_boundary"); chain_lines += (int)sg.lines.size(); } else chain_lines = (int)sg.lines.size();
+        // frames are recognisable by a non-increasing line number; if the first numbered line is above the
+        // last numbered line sent before, the two frames cannot be told apart by their line numbers: joined or
+        // separate, both accepted (the round trip oracle works this out again for the frames as delivered)
+        int first = 0;
+        for (auto& l : sg.lines) if (l.line) { first = l.line; break; }
+        if (sg.lines[0].line == 0) ctx.count("frames_led_by_undefined_line");
+        if (first == 0) ctx.count("frames_of_undefined_lines_only");
+        bool certain = first > 0 && first <= last_nz;
+        sg.may_merge = !certain && have_sliced_seg;
+        if (sg.may_merge) ctx.count("unrecognisable_boundary");
+        if (certain) chain_lines = (int)sg.lines.size(); else chain_lines += (int)sg.lines.size();
+        have_sliced_seg = true;
         for (auto& l : sg.lines) if (l.line) last_nz = l.line;
         segs.push_back(sg);
       }
@@ -890,7 +998,7 @@ struct C06 : World {
           if (pending.size() < 80) pending.push_back(l);
         } else if (op.kind == "frame") {
           std::vector<Line> lines; lines.swap(pending);
-          do_frame(lines, op.arg(0), (int)(llabs(op.arg(1)) % 2), (int)(llabs(op.arg(2)) % NMASKS), (int)(llabs(op.arg(3)) % 600), (int)(llabs(op.arg(4)) % 5), false);
+          do_frame(lines, op.arg(0), (int)(llabs(op.arg(1)) % 2), (int)(llabs(op.arg(2)) % NMASKS), (int)(llabs(op.arg(3)) % 600), (int)(llabs(op.arg(4)) % 5), 0);
         } else if (op.kind == "cfg") {
           if (llabs(op.arg(0)) % 2 == 0) {
             int d = DI_TABLE[llabs(op.arg(1)) % NDI];
@@ -920,7 +1028,14 @@ struct C06 : World {
       if (!ctx.failed) {
         Line l; l.line = 7; l.svc = 0; l.data = gen_payload(42, 4242, 4, 9999);
         if (cfg.max < 184) cfg.max = 184;
-        do_frame({l}, 0x1ABCDEF01ll, (int)(plan.knob("xfer_seed") & 1), 0, 4, 0, true);
+        if (!lead0) do_frame({l}, 0x1ABCDEF01ll, (int)(plan.knob("xfer_seed") & 1), 0, 4, 0, 1);
+        else {
+          // A frame of undefined lines only has no line number the closing frame could fall below (line 7 after
+          // "no line" is an increase): the demultiplexer may join the closing frame to it.  Hence the closing frame is
+          // an ordinary frame that is expected back, and a second one - line 7 after line 7 - hands it out.
+          do_frame({l}, 0x1ABCDEF01ll, (int)(plan.knob("xfer_seed") & 1), 0, 4, 0, 2);
+          if (!ctx.failed) { l.data = gen_payload(42, 4243, 4, 9998); do_frame({l}, 0x1ABCDEF02ll, (int)((plan.knob("xfer_seed") >> 1) & 1), 0, 4, 0, 1); }
+        }
       }
       // ---- abandoned packets (behind the closing frame, so that the round trip of the real frames is not disturbed):
       // the application reads a packet through the coroutine interface up to some byte, loses interest and either calls
@@ -957,8 +1072,8 @@ struct C06 : World {
         // the next frame(s): through feed (when abandoning by feed: necessarily) or the coroutine
         Line l; l.line = 9; l.svc = 0; l.data = gen_payload(42, h ^ 77, 4, 8000 + a);
         if (cfg.max < 184) cfg.max = 184;
-        do_frame({l}, 0x100000000ll + a, by_feed ? 0 : (int)((h >> 33) & 1), 0, (int)((h >> 34) % 600), 0, true);
-        if (!ctx.failed) { Line l2; l2.line = 11; l2.svc = 0; l2.data = gen_payload(42, h ^ 99, 4, 8100 + a); do_frame({l2}, 0x100000100ll + a, (int)((h >> 44) & 1), 0, (int)((h >> 45) % 600), 0, true); }
+        do_frame({l}, 0x100000000ll + a, by_feed ? 0 : (int)((h >> 33) & 1), 0, (int)((h >> 34) % 600), 0, 1);
+        if (!ctx.failed) { Line l2; l2.line = 11; l2.svc = 0; l2.data = gen_payload(42, h ^ 99, 4, 8100 + a); do_frame({l2}, 0x100000100ll + a, (int)((h >> 44) & 1), 0, (int)((h >> 45) % 600), 0, 1); }
       }
       st.producer_done = true;
       wake_transport();
@@ -1011,12 +1126,21 @@ struct C06 : World {
         size_t ne = s;
         while (ne < segs.size() && segs[ne].lines.empty()) ne++;
         if (ne >= segs.size()) { ctx.fail("oracle:rt-spurious", "delivery %zu %s but all accepted frames with lines (%zu) were already delivered", j, frame_str(g).c_str(), segs.size()); break; }
+        // Followers may be part of this delivery as long as their first numbered line is above the last numbered
+        // line of what the delivery holds so far ("recognisable by a non-increasing line number"; an undefined line
+        // has no number: it neither makes a frame recognisable nor ends the run of ascending numbers).
         size_t e = ne, total = segs[ne].lines.size();
+        int lastdef = 0;
+        for (auto& l : segs[ne].lines) if (l.line) lastdef = l.line;
         while (total < g.lines.size()) {
           size_t e2 = e + 1;
           while (e2 < segs.size() && segs[e2].lines.empty()) e2++;
-          if (e2 >= segs.size() || !segs[e2].may_merge) break;
+          if (e2 >= segs.size()) break;
+          int first = 0;
+          for (auto& l : segs[e2].lines) if (l.line) { first = l.line; break; }
+          if (first > 0 && first <= lastdef) break;
           e = e2; total += segs[e].lines.size();
+          for (auto& l : segs[e].lines) if (l.line) lastdef = l.line;
         }
         if (total != g.lines.size()) {
           ctx.fail("oracle:rt-lines", "delivery %zu %s: accepted frame %zu has %zu lines (pts %llx, first line %d)%s", j, frame_str(g).c_str(), ne, segs[ne].lines.size(),
@@ -1049,7 +1173,8 @@ struct C06 : World {
       ctx.fail("leak", "%zu blocks (%zu bytes; %s) still allocated after delete", alloc_live_blocks(), alloc_live_bytes(), alloc_live_summary().c_str());
     ctx.count("deliveries", (int64_t)sink.got.size());
     ctx.count("demux_calls", (int64_t)sink.calls);
-    ctx.nontrivial = frames_accepted >= 3 && sink.got.size() >= 2;
+    // (the second closing frame and the delivery of the first one do not count)
+    ctx.nontrivial = frames_accepted >= 3 + (lead0 ? 1 : 0) && sink.got.size() >= 2 + (size_t)(lead0 ? 1 : 0);
     ctx.sim_seconds = frames_accepted * 0.04;
   }
 };
